@@ -63,6 +63,7 @@ type Step struct {
 	Bind   int  `json:"bind,omitempty"`   // active open: 0 unbound, 1 wildcard + port, 2 address + port
 	RFam   int  `json:"rfam,omitempty"`   // udp-connect: peer 0 of the socket's family, 1 IPv4-mapped (IPv6 sockets), 2 plain address of the other family
 	Former bool `json:"former,omitempty"` // Ref selects a FORMER identity (of a closed or re-connected socket) instead of an open socket
+	Rst    int  `json:"rst,omitempty"`    // TCP inject on a 4-tuple without a connection: 1 the segment is a RST, 2 a RST|ACK (never answered, opens nothing)
 }
 
 type SeqCase struct {
@@ -127,7 +128,7 @@ type seqRun struct {
 	allRaw  []*msock
 	tainted map[string]bool // TCP 4-tuples whose endpoint may linger after the socket was closed / aborted
 	pinned  map[tcpip.Address]bool
-	former  []ident // identities that sockets held and gave up (Close, Connect): nobody holds them now unless re-opened
+	former  []ident         // identities that sockets held and gave up (Close, Connect): nobody holds them now unless re-opened
 	peers   map[string]bool // every 4-tuple a handshake was completed (or attempted by the stack) on
 	exps    []*tcpExp
 	step    int
@@ -141,8 +142,12 @@ const waitLong = 5 * time.Second
 
 var dbg = false
 
-func fail(sig, format string, a ...any) (*evid.Failure, bool) { return evid.Failf(sig, format, a...), false }
-func slow(sig, format string, a ...any) (*evid.Failure, bool) { return evid.Failf(sig, format, a...), true }
+func fail(sig, format string, a ...any) (*evid.Failure, bool) {
+	return evid.Failf(sig, format, a...), false
+}
+func slow(sig, format string, a ...any) (*evid.Failure, bool) {
+	return evid.Failf(sig, format, a...), true
+}
 
 func (r *seqRun) idents() []ident {
 	ids := make([]ident, len(r.open))
@@ -834,7 +839,7 @@ func (r *seqRun) findConn(key string) *msock {
 	return nil
 }
 
-func (r *seqRun) injectTCP(nic int, t tuple, v verdict, want *msock, desc string) (*evid.Failure, bool) {
+func (r *seqRun) injectTCP(nic int, t tuple, v verdict, want *msock, desc string, rst int) (*evid.Failure, bool) {
 	key := tkey(t.Dst, t.DPort, t.Src, t.SPort)
 	if r.tainted[key] {
 		evid.Label("skip:tcp-on-lingering-tuple")
@@ -908,6 +913,21 @@ func (r *seqRun) injectTCP(nic int, t tuple, v verdict, want *msock, desc string
 	iss := 0x40000000 + uint32(r.step)<<16
 	if kind == xConn {
 		return fail("harness", "step %d: model expects a connection the harness has no peer for: %v", r.step, want)
+	}
+	if rst > 0 && kind != xRaw {
+		// a stray reset: whoever matches (nobody, a listener), it is never answered and opens nothing
+		fl, ack := uint8(codec.RST), uint32(0)
+		if rst >= 2 {
+			fl, ack = codec.RST|codec.ACK, 0x01020304+uint32(r.step)
+		}
+		r.exps = append(r.exps, &tcpExp{step: r.step, t: t, seq: iss, seglen: 0, kind: xNothing})
+		p := rawpeer.NewPeerFor(r.w.taps[nic], isV6(t.Dst), t.Dst, t.Src, t.DPort, t.SPort, iss)
+		p.Send(codec.TCPSeg{Seq: iss, Ack: ack, Flags: fl, Wnd: 0})
+		evid.Label("inject:tcp-stray-reset")
+		if f, any := r.replyOn(nic, from, 0, t, func(k *codec.Packet) bool { return true }); any {
+			return fail("reset-answered", "step %d: %s: a reset segment was answered with %s\n%s", r.step, desc, f.Pkt, r.world())
+		}
+		return r.noStrayAccepts(desc), false
 	}
 	x := &tcpExp{step: r.step, t: t, seq: iss, seglen: 1, kind: kind}
 	r.exps = append(r.exps, x)
@@ -1036,7 +1056,7 @@ func (r *seqRun) opInject(st Step) (*evid.Failure, bool) {
 	if trans == transUDP {
 		return r.injectUDP(nic, t, v, want, desc), false
 	}
-	return r.injectTCP(nic, t, v, want, desc)
+	return r.injectTCP(nic, t, v, want, desc, st.Rst)
 }
 
 // ---------------------------------------------------------------------------
@@ -1269,6 +1289,9 @@ func genStep(rt *rapid.T, op int) Step {
 			st.Ref = pick("ref", 12)
 			st.Mut = fewBits("mut")
 			st.Former = pick("former", 6) == 0
+		}
+		if st.Trans == transTCP {
+			st.Rst = rapid.SampledFrom([]int{0, 0, 0, 0, 1, 2}).Draw(rt, "rst")
 		}
 	case opUDPBind, opTCPListen:
 		st.V6 = pick("v6", 3) == 0
